@@ -164,7 +164,8 @@ def eval_table(case):
     tpc, ppc = gas.pseudocritical_point_Sutton(g, gas.make_nonhydrocarbon_properties(0.0, 0.0, 0.0), "dry gas")
     tr = (T + 459.67) / (tpc + 459.67)
     viol, kinds = [], {}
-    for p, z in zip(np.asarray(tab["pressure"], dtype=float)[::case["stride"]], np.asarray(tab["z-factor"], dtype=float)[::case["stride"]]):
+    idx = sorted(set(range(0, len(tab), case["stride"])) | set(range(max(0, len(tab) - 12), len(tab))) | set(range(min(12, len(tab)))))
+    for p, z in zip(np.asarray(tab["pressure"], dtype=float)[idx], np.asarray(tab["z-factor"], dtype=float)[idx]):
         cls, r_pub, r_k1 = classify_point(float(z), tr, p / ppc)
         kinds[cls] = kinds.get(cls, 0) + 1
         if cls == "K1":
